@@ -168,6 +168,8 @@ class Interp:
                         return "with " + ", ".join(un(i) for i in n.items)
                     if isinstance(n, ast.Try):
                         return "try"
+                    if isinstance(n, ast.Assert):
+                        return "assert " + un(n.test)          # (the message is not part of the identity)
                     if isinstance(n, (ast.FunctionDef, ast.ClassDef)):
                         return "def " + n.name
                     return un(n)
@@ -367,10 +369,50 @@ class Interp:
                     raise Unsupported("del target")
         elif isinstance(s, ast.Try):
             self.do_try(s, env)
-        elif isinstance(s, (ast.Import, ast.ImportFrom)):
-            raise Unsupported("local import")
+        elif isinstance(s, ast.Import):
+            # local import: binds the real module objects, exactly what the statement does at run time (import side effects are outside the model)
+            import importlib
+            for a in s.names:
+                if a.asname:
+                    env.vars[a.asname] = importlib.import_module(a.name)
+                else:
+                    importlib.import_module(a.name)
+                    env.vars[a.name.split(".")[0]] = importlib.import_module(a.name.split(".")[0])
+        elif isinstance(s, ast.ImportFrom):
+            import importlib
+            g = env
+            while g is not None and getattr(g, "globs", None) is None:
+                g = g.parent
+            globs = g.globs if g is not None else {}
+            pkg = globs.get("__package__") or (globs.get("__name__", "").rpartition(".")[0])
+            try:
+                mod = importlib.import_module("." * s.level + (s.module or ""), pkg) if s.level else importlib.import_module(s.module)
+            except Exception as e:
+                raise Unsupported("local import %s: %r" % (s.module, e))
+            for a in s.names:
+                if a.name == "*":
+                    raise Unsupported("local star import")
+                if hasattr(mod, a.name):
+                    env.vars[a.asname or a.name] = getattr(mod, a.name)
+                else:
+                    env.vars[a.asname or a.name] = importlib.import_module(mod.__name__ + "." + a.name)
         elif isinstance(s, ast.FunctionDef):
             env.vars[s.name] = Closure(s, env, self)
+        elif isinstance(s, ast.With):
+            # context managers without an effect on the modelled semantics (floating-point error state, warning filters) are no-ops;
+            # a ghost file / an object returned by a callee contract is bound to its `as` name (closing is outside the model)
+            for item in s.items:
+                ce = item.context_expr
+                txt = ast.unparse(ce.func) if isinstance(ce, ast.Call) else ""
+                if txt in ("np.errstate", "numpy.errstate", "warnings.catch_warnings", "np.printoptions", "contextlib.nullcontext", "nullcontext"):
+                    val = Opaque("context manager " + txt)
+                else:
+                    val = self.eval(ce, env)
+                    if not isinstance(val, (SFile, SRec, Opaque)):
+                        raise Unsupported("with over %r" % (val,))
+                if item.optional_vars is not None:
+                    self.assign(item.optional_vars, val, env)
+            self.exec_block(s.body, env)
         elif isinstance(s, ast.Break):
             raise PathEnd("break")
         elif isinstance(s, ast.Continue):
@@ -420,8 +462,7 @@ class Interp:
         condition is a proof obligation (then assumed); when it does, both outcomes are explored."""
         v = self.eval(s.test, env)
         fn = self.fn_name()
-        k = self.next_ordinal("assert")
-        oid = "%s:assert.%s#%d" % (self.ctx.fname, fn.split("::")[-1], k)
+        oid = "%s:assert@L%s" % (self.ctx.fname, s.lineno)       # named by the asserted condition (not by an ordinal: an added assert renames nothing)
         note = "source assert at line +%d: %s" % (self.rel_line(s), ast.unparse(s.test)[:80])
         allowed = "AssertionError" in getattr(self.ctx, "allowed_raises", ())
         if isinstance(v, Forall):
@@ -934,6 +975,12 @@ class Interp:
 
     def e_Lambda(self, e, env):
         return Closure(e, env, self)
+
+    def e_NamedExpr(self, e, env):
+        # `(name := value)`: binds in the enclosing function scope and yields the value
+        v = self.eval(e.value, env)
+        self.assign(e.target, v, env)
+        return v
 
     def e_IfExp(self, e, env):
         tv = self.eval(e.test, env)
@@ -1606,6 +1653,9 @@ class Interp:
             return h(self, args, kwargs, lineno)
         if qn in pybuiltins.FUNC_MODELS:
             return pybuiltins.FUNC_MODELS[qn](self, args, kwargs, lineno)
+        nm = getattr(fn, "__name__", None)
+        if nm and getattr(_np, nm, None) is fn:
+            return pybuiltins.call_np(self, nm, args, kwargs, lineno)       # `from numpy import maximum` / a NumPy function held in a variable
         if isinstance(fn, types.BuiltinFunctionType) or fn in pybuiltins.BUILTINS or isinstance(fn, type):
             return pybuiltins.call_builtin(self, fn, args, kwargs, lineno)
         if isinstance(fn, types.FunctionType) and key.startswith("bionumpy"):
